@@ -1573,7 +1573,7 @@ main(void)
             pid = fork();
             if (pid < 0) { vp_reply(id, "err Fork"); continue; }
             if (!pid) {
-                alarm(60);
+                alarm(15);
                 run_history(id, atoi(r.tok[3]), (uint32_t)strtoul(r.tok[4], NULL, 10), r.tok[5]);
                 fflush(stdout);
                 _exit(0);
